@@ -600,8 +600,18 @@ class Analysis:
         else:
             tgt_name, tgt_inst = self.resolve_callee(blk, callee)
             if tgt_name is not None and self.depth < 12:
+                self._last_summary_key = None
                 r, est = self.summary(tgt_name, tgt_inst, args, av, st)
                 val = (r or rng) if rng is not None else None
+                lk_ = getattr(self, '_last_summary_key', None)
+                if lk_ is not None and rng is not None:
+                    facts_ = []
+                    for pidx in self.summaries.get(('rel', ) + lk_, ()):
+                        if 1 <= pidx <= len(args):
+                            for kk in self.keys_of(args[pidx - 1]):
+                                facts_.append(('le', dk, kk))
+                    if facts_:
+                        self._call_facts = (getattr(self, '_call_facts', None) or []) + facts_
                 if est:
                     self.pending[blk] = est
                     info_ok = [e for e, cbs in self.ok_edges.items() if blk in cbs]
@@ -723,6 +733,34 @@ class Analysis:
                 tag = 'lt' if 'lt' in (f[0], k2[0]) else 'le'
                 st[(tag, f[1], k2[2])] = (1, 1)
 
+    def param_alias(self, key, depth=0):
+        """parameter index whose value the plain local `key` equals (through moves and value-preserving casts)"""
+        if depth > 6 or not isinstance(key, tuple) or len(key) != 2 or key[1]:
+            return None
+        l = key[0]
+        if not isinstance(l, int):
+            return None
+        if 1 <= l <= self.fn.argc:
+            return l
+        defs = []
+        for bi in self.fn.reachable():
+            for s_ in self.fn.blocks[bi]['stmts']:
+                if s_['k'] == 'assign' and s_['lhs']['l'] == l and not s_['lhs']['p']:
+                    defs.append(s_['rv'])
+            t_ = self.fn.blocks[bi]['term']
+            if t_['k'] == 'call' and t_['dest']['l'] == l and not t_['dest']['p']:
+                return None
+        if len(defs) != 1 or defs[0]['k'] not in ('use', 'cast'):
+            return None
+        q = op_place(defs[0]['a'])
+        if q is None or q['p']:
+            return None
+        if defs[0]['k'] == 'cast':
+            src, dst = type_range(self.fn.local_ty(q['l'])), type_range(self.fn.local_ty(l))
+            if src is None or dst is None or src[0] < dst[0] or src[1] > dst[1]:
+                return None
+        return self.param_alias((q['l'], ()), depth + 1)
+
     def keys_of(self, o):
         p = op_place(o)
         if p is None:
@@ -821,6 +859,7 @@ class Analysis:
         key = (callee, callee_inst, tuple(av), tuple(sorted(fields.items())),
                tuple(self.len_of_ref_operand(st, a) if op_place(a) is not None else None for a in args))
         if key in self.summaries:
+            self._last_summary_key = key
             return self.summaries[key]
         self.summaries[key] = (None, None)  # recursion guard
         params = {i + 1: av[i] for i in range(len(av)) if av[i] is not None}
@@ -836,6 +875,8 @@ class Analysis:
         sub = Analysis(self.facts, cf, FnCtx(params, fields, self.ctx.used, lens), self.summaries, self.depth + 1,
                        inst=callee_inst, collector=self.collector)
         self.summaries[key] = (sub.ret, sub.established)
+        self.summaries[('rel', ) + key] = set(getattr(sub, 'ret_le_params', ()) or ())
+        self._last_summary_key = key
         return self.summaries[key]
 
     # ---- refinement
@@ -1145,6 +1186,18 @@ class Analysis:
             r = v if first else join(r, v)
             first = False
         self.ret = r
+        # relational summary: parameters the returned integer is known not to exceed at every exit (e.g. a helper
+        # `fn clamp(&self, len) -> usize { len.min(..) }`), so that callers keep `result <= argument`
+        self.ret_le_params = None
+        for stx in exits:
+            ps = set()
+            for k3 in stx:
+                if k3 and k3[0] in ('le', 'lt') and k3[1] == (0, ()):
+                    pa = self.param_alias(k3[2])
+                    if pa is not None:
+                        ps.add(pa)
+            self.ret_le_params = ps if self.ret_le_params is None else (self.ret_le_params & ps)
+        self.ret_le_params = self.ret_le_params or set()
         self.converged = not work
         self.established = self.compute_established()
         if self.collector is not None and self.depth < 10:
